@@ -157,6 +157,7 @@ INT, BOOL, STR, BYTES, NONE, ANY, CONST = (
 )
 
 _dt_cache: dict = {}
+_dt_ops: dict = {}  # datatype sort id -> (none value, some constructor, is-none recognizer, value accessor)
 
 
 def sort_of(t: T):
@@ -179,16 +180,22 @@ def sort_of(t: T):
     if isinstance(t, TOpt):
         k = ("opt", t.inner)
         if k not in _dt_cache:
-            d = z3.Datatype(f"Opt_{_mangle(t.inner)}")
-            d.declare("none")
-            d.declare("some", ("val", sort_of(t.inner)))
-            _dt_cache[k] = d.create()
+            # constructor / accessor names are unique per datatype: SMT-LIB text with two datatypes that both declare
+            # `none` is ambiguous for every command-line solver (z3py itself does not mind)
+            m = _mangle(t.inner)
+            d = z3.Datatype(f"Opt_{m}")
+            d.declare(f"none_{m}")
+            d.declare(f"some_{m}", (f"val_{m}", sort_of(t.inner)))
+            dt = d.create()
+            _dt_cache[k] = dt
+            _dt_ops[dt.get_id()] = (dt.constructor(0)(), dt.constructor(1), dt.recognizer(0), dt.accessor(1, 0))
         return _dt_cache[k]
     if isinstance(t, TTuple):
         k = ("tup", t.elems)
         if k not in _dt_cache:
-            d = z3.Datatype(f"Tup_{'_'.join(_mangle(e) for e in t.elems)}")
-            d.declare("mk", *[(f"f{i}", sort_of(e)) for i, e in enumerate(t.elems)])
+            m = "_".join(_mangle(e) for e in t.elems)
+            d = z3.Datatype(f"Tup_{m}")
+            d.declare(f"mk_{m}", *[(f"f{i}_{m}", sort_of(e)) for i, e in enumerate(t.elems)])
             _dt_cache[k] = d.create()
         return _dt_cache[k]
     if isinstance(t, TNone):
@@ -295,26 +302,26 @@ def fresh(t: T, base: str = "v") -> SV:
 
 
 def opt_none(t: TOpt) -> SV:
-    return SV(t, sort_of(t).none)
+    return SV(t, _dt_ops[sort_of(t).get_id()][0])
 
 
 def opt_some(t: TOpt, v: SV) -> SV:
-    return SV(t, sort_of(t).some(v.z))
+    return SV(t, _dt_ops[sort_of(t).get_id()][1](v.z))
 
 
 def opt_is_none(v: SV):
     s = sort_of(v.t)
-    return s.is_none(v.z)
+    return _dt_ops[s.get_id()][2](v.z)
 
 
 def opt_val(v: SV) -> SV:
     s = sort_of(v.t)
-    return SV(v.t.inner, s.val(v.z))
+    return SV(v.t.inner, _dt_ops[s.get_id()][3](v.z))
 
 
 def tup_mk(vals) -> SV:
     t = TTuple([v.t for v in vals])
-    return SV(t, sort_of(t).mk(*[v.z for v in vals]))
+    return SV(t, sort_of(t).constructor(0)(*[v.z for v in vals]))
 
 
 def tup_get(v: SV, i: int) -> SV:
